@@ -368,6 +368,10 @@ def evaluate__round_half_to_even(self: XPathFunction, context: ta.ContextType = 
         raise self.error(code, "invalid argument type {!r}".format(type(item)))
 
     precision = 0 if len(self) < 2 else self[1].evaluate(context)
+    if isinstance(precision, int) and precision < 0 and \
+            -precision > Decimal(item).adjusted() + 1:
+        return type(item)(0)  # the precision exceeds the digits of the number
+
     try:
         if isinstance(item, int):
             return round(item, precision)  # type: ignore[arg-type]
